@@ -795,7 +795,7 @@ func callerRecordsEmpty(cs ssa.Instruction, argIdx int) bool {
 	arg := cc.Args[argIdx]
 	for _, cf := range normFacts(condFacts(cs.Block())) {
 		bo, ok := cf.Cond.(*ssa.BinOp)
-		if !ok || bo.Op != token.EQL || cf.True {
+		if !ok || !assertsNeq(bo, cf.True) {
 			continue
 		}
 		call, ok := bo.X.(*ssa.Call)
@@ -1182,7 +1182,8 @@ func lenEqZeroOperand(v ssa.Value) ssa.Value {
 	if bi, ok := call.Call.Value.(*ssa.Builtin); !ok || bi.Name() != "len" {
 		return nil
 	}
-	return call.Call.Args[0]
+	// a parameter captured by a closure lives in a cell that is written once: it is still the parameter
+	return resolveCell(call.Call.Args[0])
 }
 
 // nonEmptyAt: slice value x is known non-empty at instruction `at` (dominating false branch of len(x)==0, or x is a
